@@ -13,9 +13,6 @@ def aliasTextsB : List Txt :=
    ofString "xzr", ofString "wzr", ofString "XZR", ofString "WZR"]
 def scaleOpsB : List Txt := [ofString "lsl", ofString "uxtw", ofString "sxtw", ofString "sxtx"]
 def condLitsB : List Txt := A64.conditions.map lower
-def shiftWordsB : List Txt :=
-  [ofString "lsl", ofString "lsr", ofString "asr", ofString "ror", ofString "sxtw", ofString "uxtw",
-   ofString "uxtb", ofString "sxtx", ofString "mul"]
 def prfWordsB : List Txt := [ofString "pld", ofString "pst"]
 def regLettersB : List Nat := ofString "xwbhsdqvzp"
 
@@ -56,9 +53,12 @@ def nameShapeB (name : Txt) : Bool :=
   | c :: w => isIdFirstC c && w.all isIdRestC
   | [] => false
 
+/-- a label name: not spelled like a register, an alias or a condition code, not itself a shift / extend
+    operator (`lsl`; names that merely begin with one — `lsl_loop`, `rorx` — are inside: the operator
+    ends at a word boundary), not beginning with a prefetch type -/
 def identNameOkB (name : Txt) : Bool :=
   nameShapeB name && !regLikeB name && !aliasLikeB name && !condLitsB.contains (lower name) &&
-  shiftWordsB.all (fun sw => !ciPrefixB sw name) && prfWordsB.all (fun sw => !ciPrefixB sw name)
+  !A64.shiftOps.contains (lower name) && prfWordsB.all (fun sw => !ciPrefixB sw name)
 
 def hexDigitB (up : Bool) (d : Nat) : Nat := if d < 10 then 48 + d else if up then 55 + d else 87 + d
 
